@@ -21,6 +21,10 @@ def main(names):
         print(out)
         return 2
     env = dict(os.environ, PYTHONPATH=WT, PYTHONDONTWRITEBYTECODE="1", MPLBACKEND="Agg")
+    _, outb = sh("/venv/bin/python -m pytest -q -p no:cacheprovider 2>&1 | tail -1", cwd=WT, env=env)
+    mb = re.search(r"(\d+) failed, (\d+) passed", outb)
+    baseline = mb.group(0) if mb else outb[-100:]
+    print("baseline of /repo HEAD:", baseline, flush=True)
     try:
         for name in names:
             d = os.path.join(ROOT, "seeded", name)
@@ -44,7 +48,8 @@ def main(names):
             meta["demo_exit_clean"] = rc0
             meta["demo_exit_patched"] = rc1
             meta["suite_with_patch"] = m.group(0) if m else outt[-200:]
-            meta["confirmed"] = bool(rc0 == 0 and rc1 != 0 and m and m.group(1) == "12" and m.group(2) == "1096")
+            meta["suite_baseline_head"] = baseline
+            meta["confirmed"] = bool(rc0 == 0 and rc1 != 0 and m and m.group(0) == baseline)
             meta["ran"] = "tools/verify_seed.py: git apply in scratch worktree of /repo HEAD; demo.py clean/patched; full pytest with patch"
             json.dump(meta, open(meta_p, "w"), indent=1)
             print(name, "confirmed" if meta["confirmed"] else "NOT CONFIRMED", rc0, rc1, meta["suite_with_patch"], flush=True)
